@@ -269,7 +269,7 @@ def _ref_kind(kind, opts, spec, value, required, ctx):
             return (REJ, "not a dict")
         if required and not value:
             return (REJ, "required and empty")
-        kf, vf = spec.get("key"), spec.get("value")
+        kf, vf = spec.get("keyf"), spec.get("valuef")
         if kf is None and vf is None:
             return (A, value)
         kf = kf or {"kind": "any"}
